@@ -43,8 +43,15 @@ def assemble(stmts, term):
     c = term
     for st in reversed(stmts):
         n = dict(st)
-        n["next"] = c
-        c = n
+        if n.pop("raises", False):
+            # the wrapped function raises, the operation handles it and goes on:  try: out(...)  except: <rest>
+            n["body"] = {"k": "raise", "ty": "ValueError"}
+            n["cfg"] = dict(n["cfg"], fail=True)      # an added call of it has no recorded outcome: missing-key error, handled too
+            n["next"] = {"k": "ret", "e": {"lit": pv.none()}}
+            c = {"k": "try", "c": n, "h": c}
+        else:
+            n["next"] = c
+            c = n
     return dict(cls="OpA", classlevel=False, extractor={"kind": "none"}, body=c)
 
 
@@ -60,6 +67,12 @@ def rand_program(rng):
     rng.shuffle(stmts)
     for i in range(rng.randrange(0, 3)):
         stmts.insert(rng.randrange(len(stmts) + 1), in_stmt(rng, i))
+    # calls whose wrapped function raises (the operation handles it and goes on) use an alias of their own: every recorded
+    # outcome of that alias is an exception, so dropping / duplicating such a call never turns a raise into a return
+    for _ in range(rng.choice([0, 0, 1, 2])):
+        st = out_stmt(rng, "boom", rng.random() < 0.5, "none")
+        st["raises"] = True
+        stmts.insert(rng.randrange(len(stmts) + 1), st)
     term = {"k": "ret", "e": {"lit": pv.rand_pyval(rng, 1, objs=False)}} if rng.random() < 0.8 else {"k": "raise", "ty": "ValueError"}
     return stmts, term, kinds
 
@@ -129,6 +142,20 @@ def expected_outputs(op, outcome):
     cnt = {}
     c = op["body"]
     while True:
+        if c["k"] == "try":
+            inner = c["c"]            # one call whose wrapped function raises; the rest of the program is the handler
+            if inner["k"] == "out":
+                al = inner["cfg"]["alias"]
+                cnt[al] = cnt.get(al, 0) + 1
+                args = [pv.canon_json(e["lit"]) for e in inner["args"]]
+                kwargs = sorted([k, pv.canon_json(e["lit"])] for k, e in inner["kwargs"])
+                if inner["cfg"]["handler"] == "wrap":
+                    d = {"d": "data", "v": {"t": "dict", "v": sorted([["a", {"t": "list", "v": args}], ["k", {"t": "dict", "v": kwargs}]])}}
+                else:
+                    d = {"d": "out", "args": args, "kwargs": kwargs}
+                exp["output: %s #%d.output" % (al, cnt[al])] = d
+            c = c["h"]
+            continue
         if c["k"] == "out":
             al = c["cfg"]["alias"]
             cnt[al] = cnt.get(al, 0) + 1
